@@ -700,13 +700,13 @@ def report_mismatch(ctx, world, tmpdir, cfg, ops, obs, name):
     ctx.log("  implementation:", " ".join(impl.split())[:1500])
     ctx.log("  model         :", model)
     ctx.broken.append("correspondence: model and class differ on op %s" % ops[-1]["op"])
-    ctx.fail_input(
-        "InterpolatableFunction deviates from the verified model on the last op (%s) of a "
+    fail_once(
+        ctx, "InterpolatableFunction deviates from the verified model on the last op (%s) of a "
         "%d-op sequence (k=%d, modes/adaptive/table history in the replay)" % (
             ops[-1]["op"], len(ops), cfg["k"]),
         dict(kind="differential", seq=jseq(cfg, ops), implementation=" ".join(impl.split()),
              model=model),
-        key="model-mismatch-%s" % ops[-1]["op"])
+        "model-mismatch-%s" % ops[-1]["op"])
 
 
 # --------------------------------------------------------------------------------------
